@@ -1,6 +1,6 @@
 (** Proofs about the Context model (Ctx/Context.v): stack discipline, view compositions, draw matrices,
     coordinate systems, setters. *)
-From Coq Require Import ZArith QArith List Bool Lia.
+From Coq Require Import ZArith QArith Qround List Bool Lia Lqa.
 From CV Require Import Base.Dy Geom.Matrix Ctx.DashCheck Ctx.Context Ctx.Spec.
 Import ListNotations.
 Open Scope Q_scope.
@@ -377,6 +377,159 @@ Theorem draw_image_matrix W H c x y id wpx hpx res r :
 Proof.
   cbn [ctx_step snd]. destruct ((wpx =? 0)%Z && (hpx =? 0)%Z); [intros []|].
   cbn [In]. intros [E|[]]; subst r; split; reflexivity.
+Qed.
+
+(** * FitImage *)
+
+Theorem fit_image_matrix_point W H s x y xres yres wc hc p :
+  ~ xres == 0 -> ~ yres == 0 ->
+  let q := image_flip (csysm s) wc hc p in
+  pteq (mdot (fit_image_matrix W H s x y xres yres wc hc) p) (mdot (base_matrix W H s x y) (fst q / xres, snd q / yres)).
+Proof.
+  intros RX RY. cbn zeta. unfold fit_image_matrix, image_flip. eapply pteq_trans; [apply mdot_mnorm|].
+  destruct (csysm s); cbn [flipsX flipsY fst snd].
+  - eapply pteq_trans; [apply mdot_mscale|]. apply mdot_pt. unfold pteq; cbn [fst snd]. split; field; assumption.
+  - eapply pteq_trans; [apply mdot_mreflectx_about|]. eapply pteq_trans; [apply mdot_mscale|].
+    apply mdot_pt. unfold pteq; cbn [fst snd]. split; field; assumption.
+  - eapply pteq_trans; [apply mdot_mreflectx_about|]. eapply pteq_trans; [apply mdot_mreflecty_about|].
+    eapply pteq_trans; [apply mdot_mscale|]. apply mdot_pt. unfold pteq; cbn [fst snd]. split; field; assumption.
+  - eapply pteq_trans; [apply mdot_mreflecty_about|]. eapply pteq_trans; [apply mdot_mscale|].
+    apply mdot_pt. unfold pteq; cbn [fst snd]. split; field; assumption.
+Qed.
+
+Theorem fit_image_upright W H s x y xres yres wc hc :
+  ~ xres == 0 -> ~ yres == 0 ->
+  mdet (fit_image_matrix W H s x y xres yres wc hc) == mdet (cview s) / (xres * yres).
+Proof.
+  intros RX RY. unfold fit_image_matrix. rewrite (mdet_meq _ _ (mnorm_meq _)).
+  assert (B := path_orientation W H s x y). revert B.
+  destruct (csysm s); cbn [flipsX flipsY csys_sign]; intro B;
+    rewrite ?mdet_mreflectx_about, ?mdet_mreflecty_about, mdet_mscale, B; field; split; assumption.
+Qed.
+
+(** ImageFill and ImageCover: the (cropped) image of wc x hc pixels is laid exactly over the rectangle *)
+Theorem fit_fill_cover_box r fit wpx hpx :
+  (fit = 0 \/ fit = 2)%Z -> 0 < rW r -> 0 < rH r ->
+  let '(x, y, xres, yres, dx, dy) := fit_params r fit wpx hpx in
+  let wc := (wpx - 2 * dx)%Z in let hc := (hpx - 2 * dy)%Z in
+  x == rx0 r /\ y == ry0 r /\ xres * rW r == inject_Z wc /\ yres * rH r == inject_Z hc.
+Proof.
+  intros F PW PH. unfold fit_params.
+  assert (NW : ~ rW r == 0) by (intro E; rewrite E in PW; discriminate).
+  assert (NH : ~ rH r == 0) by (intro E; rewrite E in PH; discriminate).
+  destruct F as [F|F]; subst fit; cbn [Z.eqb Pos.eqb].
+  - cbn zeta. repeat split; try reflexivity; rewrite ?Z.mul_0_r, ?Z.sub_0_r; field; assumption.
+  - destruct (Qlt_le_dec _ _); cbn zeta; repeat split; try reflexivity;
+      rewrite ?Z.mul_0_r, ?Z.sub_0_r; try (field; assumption);
+      unfold Z.sub; rewrite inject_Z_plus, inject_Z_opp; field; assumption.
+Qed.
+
+(** ImageContain: one resolution for both axes (the aspect ratio is kept), the image lies inside the rectangle and is
+    centred on the axis along which it does not fill it *)
+Lemma div_pos a b : 0 < a -> 0 < b -> 0 < a / b.
+Proof. intros A B. apply Qlt_shift_div_l; [exact B | rewrite Qmult_0_l; exact A]. Qed.
+
+(* a/w < b/h  ->  a/(b/h) <= w *)
+Lemma contain_aux a b w h : 0 < a -> 0 < b -> 0 < w -> 0 < h -> a / w <= b / h -> a / (b / h) <= w.
+Proof.
+  intros A B W Hh L.
+  assert (C := div_pos b h B Hh).
+  apply Qle_shift_div_r; [exact C|].
+  assert (E : a == a / w * w) by (field; intro Z; rewrite Z in W; discriminate).
+  rewrite E at 1. rewrite (Qmult_comm w). apply Qmult_le_compat_r; [exact L | apply Qlt_le_weak; exact W].
+Qed.
+
+Theorem fit_contain_inside r wpx hpx :
+  0 < rW r -> 0 < rH r -> (0 < wpx)%Z -> (0 < hpx)%Z ->
+  let '(x, y, xres, yres, dx, dy) := fit_params r 1 wpx hpx in
+  xres == yres /\ dx = 0%Z /\ dy = 0%Z /\ 0 < xres /\
+  rx0 r <= x /\ x + inject_Z wpx / xres <= rx1 r /\ ry0 r <= y /\ y + inject_Z hpx / yres <= ry1 r /\
+  x - rx0 r == rx1 r - (x + inject_Z wpx / xres) /\ y - ry0 r == ry1 r - (y + inject_Z hpx / yres).
+Proof.
+  intros PW PH PX PY. unfold fit_params. cbn [Z.eqb Pos.eqb].
+  assert (QX : 0 < inject_Z wpx) by (rewrite (Zlt_Qlt 0 wpx) in PX; exact PX).
+  assert (QY : 0 < inject_Z hpx) by (rewrite (Zlt_Qlt 0 hpx) in PY; exact PY).
+  set (a := inject_Z wpx) in *. set (b := inject_Z hpx) in *.
+  set (w := rW r) in *. set (h := rH r) in *.
+  assert (X1 : rx1 r == rx0 r + w) by (unfold w, rW; ring).
+  assert (Y1 : ry1 r == ry0 r + h) by (unfold h, rH; ring).
+  assert (NW : ~ w == 0) by (intro E; rewrite E in PW; discriminate).
+  assert (NH : ~ h == 0) by (intro E; rewrite E in PH; discriminate).
+  assert (NA : ~ a == 0) by (intro E; rewrite E in QX; discriminate).
+  assert (NB : ~ b == 0) by (intro E; rewrite E in QY; discriminate).
+  assert (RX := div_pos a w QX PW). assert (RY := div_pos b h QY PH).
+  destruct (Qlt_le_dec (a / w) (b / h)) as [L|L]; cbn zeta.
+  - assert (K := contain_aux a b w h QX QY PW PH (Qlt_le_weak _ _ L)).
+    assert (E1 : b / (b / h) == h) by (field; split; assumption).
+    set (k := a / (b / h)) in *. clearbody k.
+    repeat split; try reflexivity; try exact RY; rewrite ?X1, ?Y1, ?E1; clearbody w h; try (setoid_replace ((w - k) / 2) with ((w - k) * (1 # 2)) by field); try lra.
+  - assert (K := contain_aux b a h w QY QX PH PW L).
+    assert (E1 : a / (a / w) == w) by (field; split; assumption).
+    set (k := b / (a / w)) in *. clearbody k.
+    repeat split; try reflexivity; try exact RX; rewrite ?X1, ?Y1, ?E1; clearbody w h; try (setoid_replace ((h - k) / 2) with ((h - k) * (1 # 2)) by field); try lra.
+Qed.
+
+(** ImageCover never crops the image away: at least one column and one row of pixels remain, the resolutions are positive
+    (before the fix in /repo a 40x10 image in a 1x40 rectangle was cropped to zero width: infinite scale) *)
+Lemma crop_keeps n v : (0 < n)%Z -> 2 * v < inject_Z n ->
+  let d := Qfloor (v + (1 # 2)) in
+  let d' := if Qle_bool (inject_Z n) (inject_Z (2 * d)) then (d - 1)%Z else d in
+  (0 < n - 2 * d')%Z.
+Proof.
+  intros N V. cbn zeta.
+  assert (F := Qfloor_le (v + (1 # 2))).
+  set (d := Qfloor (v + (1 # 2))) in *.
+  assert (D : inject_Z (2 * d) < inject_Z n + 1).
+  { rewrite inject_Z_mult. change (inject_Z 2) with 2. lra. }
+  assert (D2 : (2 * d < n + 1)%Z).
+  { rewrite Zlt_Qlt. rewrite inject_Z_plus. exact D. }
+  destruct (Qle_bool (inject_Z n) (inject_Z (2 * d))) eqn:E.
+  - lia.
+  - assert (E2 : ~ inject_Z n <= inject_Z (2 * d)) by (intro X; apply Qle_bool_iff in X; congruence).
+    rewrite <- Zle_Qle in E2. lia.
+Qed.
+
+Theorem fit_cover_keeps_pixels r wpx hpx :
+  0 < rW r -> 0 < rH r -> (0 < wpx)%Z -> (0 < hpx)%Z ->
+  let '(x, y, xres, yres, dx, dy) := fit_params r 2 wpx hpx in
+  (0 < wpx - 2 * dx)%Z /\ (0 < hpx - 2 * dy)%Z /\ 0 < xres /\ 0 < yres.
+Proof.
+  intros PW PH PX PY. unfold fit_params. cbn [Z.eqb Pos.eqb].
+  assert (QX : 0 < inject_Z wpx) by (rewrite (Zlt_Qlt 0 wpx) in PX; exact PX).
+  assert (QY : 0 < inject_Z hpx) by (rewrite (Zlt_Qlt 0 hpx) in PY; exact PY).
+  assert (NW : ~ rW r == 0) by (intro E; rewrite E in PW; discriminate).
+  assert (NH : ~ rH r == 0) by (intro E; rewrite E in PH; discriminate).
+  assert (RX : 0 < inject_Z wpx / rW r) by (apply Qlt_shift_div_l; [exact PW | rewrite Qmult_0_l; exact QX]).
+  assert (RY : 0 < inject_Z hpx / rH r) by (apply Qlt_shift_div_l; [exact PH | rewrite Qmult_0_l; exact QY]).
+  destruct (Qlt_le_dec _ _) as [L|L]; cbn zeta.
+  - assert (V : 2 * ((inject_Z hpx - rH r * (inject_Z wpx / rW r)) / 2) < inject_Z hpx).
+    { assert (P : 0 < rH r * (inject_Z wpx / rW r)) by (apply Qmult_lt_0_compat; assumption).
+      set (t := rH r * (inject_Z wpx / rW r)) in *. clearbody t.
+      setoid_replace (2 * ((inject_Z hpx - t) / 2)) with (inject_Z hpx - t) by field. lra. }
+    assert (K := crop_keeps hpx _ PY V). cbn zeta in K.
+    set (dy := if Qle_bool _ _ then _ else _) in *.
+    repeat split; try lia; try exact RX.
+    apply Qlt_shift_div_l; [exact PH|]. rewrite Qmult_0_l.
+    rewrite (Zlt_Qlt 0) in K. unfold Z.sub in K. rewrite inject_Z_plus, inject_Z_opp in K. clearbody dy. change (inject_Z 0) with 0 in K. unfold Qminus. exact K.
+  - assert (V : 2 * ((inject_Z wpx - rW r * (inject_Z hpx / rH r)) / 2) < inject_Z wpx).
+    { assert (P : 0 < rW r * (inject_Z hpx / rH r)) by (apply Qmult_lt_0_compat; assumption).
+      set (t := rW r * (inject_Z hpx / rH r)) in *. clearbody t.
+      setoid_replace (2 * ((inject_Z wpx - t) / 2)) with (inject_Z wpx - t) by field. lra. }
+    assert (K := crop_keeps wpx _ PX V). cbn zeta in K.
+    set (dx := if Qle_bool _ _ then _ else _) in *.
+    repeat split; try lia; try exact RY.
+    apply Qlt_shift_div_l; [exact PW|]. rewrite Qmult_0_l.
+    rewrite (Zlt_Qlt 0) in K. unfold Z.sub in K. rewrite inject_Z_plus, inject_Z_opp in K. clearbody dx. change (inject_Z 0) with 0 in K. unfold Qminus. exact K.
+Qed.
+
+Theorem fit_image_handed_on W H c r fit id wpx hpx rp :
+  In rp (snd (ctx_step W H c (FitImage r fit id wpx hpx))) ->
+  let '(x, y, xres, yres, dx, dy) := fit_params r fit wpx hpx in
+  rm rp = fit_image_matrix W H (ccur c) x y xres yres (wpx - 2 * dx) (hpx - 2 * dy) /\
+  robj rp = OImage id (wpx - 2 * dx) (hpx - 2 * dy).
+Proof.
+  cbn [ctx_step snd]. destruct (_ || _ || _); [intros []|].
+  destruct (fit_params r fit wpx hpx) as [[[[[x y] xres] yres] dx] dy]. cbn [In]. intros [E|[]]; subst rp; split; reflexivity.
 Qed.
 
 (** * Setters *)
